@@ -39,7 +39,8 @@ META = {
                   "every path.",
     "explanation": "symbolic execution of dali.sequences._find_next (inductive step) and "
                    "dali.sequences.Commissioning against model gear",
-    "bounds": ["(A) low <= high over the full 24-bit range, population abstracted to (least active address, "
+    "bounds": ["refusing unit offered address 63 first; dry run with more units than addresses; generator closed after 0..24 commands",
+               "(A) low <= high over the full 24-bit range, population abstracted to (least active address, "
                "duplicate flag), free framing-error flag on non-leaf COMPAREs",
                "(B) N <= 3 units (thorough 4), initial short address none or 0..63 symbolic, <= 2 clash "
                "rounds before the fairness assumption, permitted sets: all 64 / empty / {k} / {k,k'} / "
